@@ -897,6 +897,7 @@ AnyP::Uri::addRelativePath(const char *relUrl)
         path_.chop(0, lastSlashPos+1);
     }
     path_.append(relUrl, relUrlLength);
+    touch(); // path_ changed: forget the memoised absolute forms
 }
 
 int
